@@ -22,6 +22,7 @@ else:
     BUILD = os.path.join(VERIF, 'build', 'scratch_' + hashlib.sha1(REPO.encode()).hexdigest()[:8])
     EVID = os.path.join(BUILD, 'evidence')
     REPLAYS = os.path.join(BUILD, 'replays')
+    COQ = os.path.join(BUILD, 'coq')       # private copy: Gen/*.v differ per source tree
 CORPUS = os.path.join(VERIF, 'corpus')
 
 # make the implementation importable from the working tree under test
@@ -76,13 +77,33 @@ class Lock:
         self.f.close()
 
 
+def regenerate():
+    """Run every source translator: coq/Gen/*.v are rebuilt from REPO's working tree."""
+    os.makedirs(os.path.join(COQ, 'Gen'), exist_ok=True)
+    logs = {}
+    for tool in sorted(os.listdir(os.path.join(VERIF, 'tools'))):
+        if tool.startswith('gen_') and tool.endswith('.py'):
+            env = dict(os.environ, VERIF_REPO=REPO)
+            rc, out = sh(['/venv/bin/python', os.path.join(VERIF, 'tools', tool), os.path.join(COQ, 'Gen')],
+                         timeout=300, env=env)
+            logs[tool] = (rc, out[-2000:])
+    return logs
+
+
 def coq_build(targets=None):
-    """(Re)build the Coq development (full .vo build). Returns (ok, log)."""
-    with Lock('coqbuild'):
-        if not os.path.exists(os.path.join(COQ, 'Makefile')):
-            rc, out = sh('coq_makefile -f _CoqProject -o Makefile', cwd=COQ, timeout=120)
-            if rc != 0:
-                return False, out
+    """Regenerate Gen/*.v from the source tree under test, then (re)build the Coq
+    development (full .vo build). Returns (ok, log)."""
+    with Lock('coqbuild' + ('' if COQ == os.path.join(VERIF, 'coq') else os.path.basename(BUILD))):
+        if COQ != os.path.join(VERIF, 'coq'):
+            os.makedirs(COQ, exist_ok=True)
+            sh(['rsync', '-a', '--delete', '--exclude', 'Gen/', os.path.join(VERIF, 'coq') + '/', COQ + '/'], timeout=300)
+        gl = regenerate()
+        bad = {k: v for k, v in gl.items() if v[0] != 0}
+        if bad:
+            return False, 'translator failed: ' + json.dumps(bad)[:3000]
+        rc, out = sh('coq_makefile -f _CoqProject -o Makefile', cwd=COQ, timeout=120)
+        if rc != 0:
+            return False, out
         tgt = '' if not targets else ' '.join(targets)
         rc, out = sh(f'timeout {COQ_TIMEOUT} make -j{os.cpu_count() or 4} {tgt}',
                      cwd=COQ, timeout=COQ_TIMEOUT + 30)
